@@ -382,6 +382,17 @@ def main():
     known_seen = {}
     out_lines = []
     groups = {}
+    # report one witness of every kind of violation before second ones of any kind
+    def _gk(v):
+        return re.sub(r"0x[0-9a-f]+|[0-9a-f]{6,}|\d+", "#", v[1])[:100]
+    seen_kinds = {}
+    order = []
+    for v in viols:
+        k = _gk(v)
+        seen_kinds[k] = seen_kinds.get(k, 0) + 1
+        order.append((seen_kinds[k], len(order), v))
+    order.sort(key=lambda x: (x[0], x[1]))
+    viols = [v for _, _, v in order]
     for n, (r, why, finding, witness) in enumerate(viols):
         if finding and (prop, finding) in known:
             known_seen.setdefault(finding, 0)
